@@ -53,6 +53,29 @@ func init() {
 			st.assume(e.wfSlice(st, res))
 			return Value{term: res, typ: rt}
 		},
+		// math/big and crypto/rand: bigval(p) is the (immutable) mathematical
+		// value of the *big.Int p.
+		"math/big.NewInt": func(e *Enc, fr *frame, st *State, a []Value, p string, rt types.Type) Value {
+			e.v.declFun("bigval", "(Int) Int")
+			r := e.freshValue(st, p, rt)
+			st.assume("(and (not (= " + r.term + " 0)) (= (bigval " + r.term + ") " + a[0].term + "))")
+			return r
+		},
+		"crypto/rand.Int": func(e *Enc, fr *frame, st *State, a []Value, p string, rt types.Type) Value {
+			// documented: uniform in [0, max); panics if max <= 0; the
+			// entropy source never fails (Go >= 1.24).
+			e.v.declFun("bigval", "(Int) Int")
+			e.oblige(st, "nopanic", "rand.Int max<=0", "(> (bigval "+a[1].term+") 0)", 0)
+			r := e.freshValue(st, p, rt)
+			st.assume("(and (= " + r.tuple[1].term + " nil_iface) (not (= " + r.tuple[0].term + " 0)) (<= 0 (bigval " + r.tuple[0].term + ")) (< (bigval " + r.tuple[0].term + ") (bigval " + a[1].term + ")))")
+			return r
+		},
+		"(*math/big.Int).Int64": func(e *Enc, fr *frame, st *State, a []Value, p string, rt types.Type) Value {
+			e.v.declFun("bigval", "(Int) Int")
+			r := e.freshValue(st, p, rt)
+			st.assume("(=> " + inRange(types.Typ[types.Int64], "(bigval "+a[0].term+")") + " (= " + r.term + " (bigval " + a[0].term + ")))")
+			return r
+		},
 		"(*regexp.Regexp).MatchString": func(e *Enc, fr *frame, st *State, a []Value, p string, rt types.Type) Value {
 			if curCall != nil {
 				if ld, ok := curCall.Args[0].(*ssa.UnOp); ok && ld.Op == token.MUL {
